@@ -24,8 +24,10 @@ properties! {
     "C01" => c01,
     "C02" => c02,
     "C03" => c03,
+    "C04" => c04,
     "C06" => c06,
     "C08" => c08,
+    "C10" => c10,
     "C11" => c11,
     "C14" => c14,
     "C15" => c15,
